@@ -36,8 +36,9 @@ type ivRow struct {
 	Four       int    `json:"four"`
 }
 type laySec struct {
-	Ty  uint32 `json:"ty"`
-	Ext bool   `json:"ext"`
+	Ty    uint32 `json:"ty"`
+	Ext   bool   `json:"ext"`
+	Empty bool   `json:"empty"`
 }
 type layRow struct {
 	Part      string   `json:"part"`
@@ -170,16 +171,24 @@ func buildTdxImage(r layRow, seed int64) ([]byte, []*oabi.TDXMetadataSection, er
 			nTemp++
 		default:
 			ms.MemoryBase, ms.MemorySize = oabi.EFIPhysicalAddress(0x810000+0x100000*nTemp), 0x3000
+			if s.Empty {
+				ms.MemorySize = 0
+			}
 			nTemp++
 		}
 		secs = append(secs, ms)
 	}
 	switch r.Flaw {
 	case "overlap":
-		if len(secs) >= 2 {
-			secs[len(secs)-1].MemoryBase = secs[0].MemoryBase
+		// the last section that occupies memory is moved onto the first one (an empty section overlaps nothing)
+		j := len(secs) - 1
+		for j >= 1 && secs[j].MemorySize == 0 {
+			j--
+		}
+		if j >= 1 && secs[0].MemorySize > 0 {
+			secs[j].MemoryBase = secs[0].MemoryBase
 		} else {
-			return nil, nil, nil // not expressible with one section
+			return nil, nil, nil // not expressible
 		}
 	case "fvsize":
 		if len(fvs) == 0 {
@@ -555,4 +564,33 @@ func RunC05(run *vk.Run) {
 	}
 	run.Exhaustive = !run.IsQuick()
 	run.Rule = "part 1: every pair (<=2 disjoint RAM banks, <=2 (thorough 3) disjoint sections) on an 8-unit line emitted by TLC is run through the real interval sweep at two unit sizes (4 KiB and 1 GiB, so that the 4 GiB mark is crossed) with shuffled input order; part 2: every TDVF section list up to 4 over 5 types x extend flag x 3 launch modes x 4 flaws (quick: a seeded sixth) is built as a real image and the MRTD and hand-off block compared with the reference stream / descriptor sequence; part 3: bank layout and legacy-mode MRTDs for every GCE machine shape"
+}
+
+// ShapeBanks returns the RAM banks of every GCE machine shape as MeasureTdx.tla defines them (3 GiB
+// below the hole, the firmware's 2 MiB, the rest above 4 GiB per NUMA node), for checks that must not
+// take them from the code under test.
+func ShapeBanks(run *vk.Run) (map[string][]ovmf.GuestPhysicalRegion, error) {
+	em, err := vk.RunTLC(vk.TLCOpts{Module: "MeasureTdx", Config: "Emit_MeasureTdx_const.cfg", Workers: 1, Timeout: 5 * time.Minute})
+	if err != nil {
+		return nil, err
+	}
+	run.AddTLC(em)
+	var shapes struct {
+		Shapes map[string][]struct {
+			S uint64 `json:"s"`
+			L uint64 `json:"l"`
+		} `json:"shapes"`
+	}
+	if len(em.Edges) == 0 || json.Unmarshal(em.Edges[0], &shapes) != nil {
+		return nil, fmt.Errorf("MeasureTdx.tla did not emit the shape table")
+	}
+	out := map[string][]ovmf.GuestPhysicalRegion{}
+	for name, bs := range shapes.Shapes {
+		var banks []ovmf.GuestPhysicalRegion
+		for _, b := range bs {
+			banks = append(banks, ovmf.GuestPhysicalRegion{Start: oabi.EFIPhysicalAddress(b.S << 20), Length: b.L << 20})
+		}
+		out[strings.ReplaceAll(name, "_", "-")] = banks
+	}
+	return out, nil
 }
